@@ -185,7 +185,15 @@ def check_scenario_step(ctx, R="C12.scenario"):
     check_duration(ctx, R)
     st = model.func(DS, "DynamicScenario._start")
     t = unparse(st)
-    if "self._elapsedTime = 0" in t and "self._timeLimitInSteps /= timestep" in t and "if self._timeLimitIsInSeconds" in t:
+    ts = set(lib.locals_assigned(st, lambda v: unparse(v) == "veneer.currentSimulation.timestep")) | {"veneer.currentSimulation.timestep"}
+    conv = [
+        n
+        for n in walk_local(st)
+        if (isinstance(n, ast.AugAssign) and isinstance(n.op, ast.Div) and unparse(n.target) == "self._timeLimitInSteps" and unparse(n.value) in ts)
+        or (isinstance(n, ast.Assign) and unparse(n.targets[0]) == "self._timeLimitInSteps" and any(unparse(n.value) == f"self._timeLimitInSteps / {x}" or unparse(n.value) == f"self._timeLimit / {x}" for x in ts))
+    ]
+    guarded = conv and any(unparse(t_) == "self._timeLimitIsInSeconds" and p_ for t_, p_ in lib.path_conditions(conv[0], st))
+    if "self._elapsedTime = 0" in t and guarded:
         ctx.ok(R, st, "time limits given in seconds are converted to steps by dividing by the timestep; elapsed time starts at 0")
     else:
         ctx.finding(R, st, "time limit conversion", "DynamicScenario._start no longer converts a time limit in seconds with `/= timestep` under _timeLimitIsInSeconds")
